@@ -18,8 +18,8 @@ LEVEL_TEXT = ("Openings {ALPN h2 / http/1.1 / none, cleartext preface, h2c upgra
 LEVEL_NOTE = "Trusted: hv/wire parsers; the ALPN result is injected through the documented ssl_object / SSLStream accessor."
 RULE = ("opening kind x trailing traffic x split offsets; an evaluation is one (segmentation, worker) execution; non-trivial = "
         "the split fell inside the opening or the protocol switch carried trailing bytes; distinct = distinct (case, offset)")
-ASSUMPTIONS = ["ALPN negotiation itself is the TLS library's; the stub returns the negotiated value"]
-MIN_DECISIVE = {"classification": 20, "metamorphic": 200, "answered-once": 20}
+ASSUMPTIONS = ["in the connection tier the ALPN result is injected through the ssl_object / SSLStream accessors; the tls.alpn family grounds it with real TLS on loopback"]
+MIN_DECISIVE = {"classification": 20, "metamorphic": 200, "answered-once": 20, "tls-alpn": 8}
 
 
 def _tag_app(tag):
@@ -40,6 +40,10 @@ def _h2_req(fb, sid, tag, body=b""):
 
 
 def gen(rng, tier):
+    # real TLS on loopback (tier B): the ALPN result comes from the ssl module / trio.SSLStream, not from a stub
+    for be in ("asyncio", "trio"):
+        for offer in (["h2"], ["http/1.1"], ["h2", "http/1.1"], ["http/1.1", "h2"], None, ["spdy/3"]):
+            yield {"family": "tls.alpn", "kind": "tls", "backend": be, "offer": offer, "backends": [be]}
     n = 0
     kinds = ["alpn_h2", "alpn_h11", "tls_noalpn", "prior", "h2c", "h2c_settings", "h2c_body", "websocket", "plain", "plain_pipelined"]
     reps = 4 if tier == "quick" else 12
@@ -149,7 +153,94 @@ def _normalise(case, obs):
     return (apps, client, obs.handler, obs.closed_at is not None)
 
 
+def _tls_case(case, tally):
+    import os
+    import socket
+    import ssl
+    import time
+
+    from ..wire.h2raw import FrameReader
+    from ..world.realnet import ServeHarness, recv_all, recv_until
+
+    findings = []
+    be = case["backend"]
+    assets = os.path.join(os.environ.get("HYPERCORN_SRC", "/repo/src"), "..", "tests", "assets")
+    if not os.path.exists(os.path.join(assets, "cert.pem")):
+        assets = "/repo/tests/assets"
+    apps = {"lifespan": [["recv"], ["send", {"type": "lifespan.startup.complete"}], ["recv"], ["send", {"type": "lifespan.shutdown.complete"}]],
+            "default": [["recv_until_end"], ["respond", 200, [(b"content-length", b"2")], b"ok"]]}
+    h = ServeHarness(be, {"certfile": os.path.join(assets, "cert.pem"), "keyfile": os.path.join(assets, "key.pem"),
+                          "graceful_timeout": 0.5, "shutdown_timeout": 0.5, "keep_alive_timeout": 5.0}, apps)
+    negotiated, version, answered = None, None, False
+    try:
+        h.start()
+        h.wait_event(lambda e: e[2] == "app" and e[3] == "send.", 3.0)
+        ctx = ssl.SSLContext(ssl.PROTOCOL_TLS_CLIENT)
+        ctx.check_hostname = False
+        ctx.verify_mode = ssl.CERT_NONE
+        if case["offer"]:
+            ctx.set_alpn_protocols(case["offer"])
+        raw = socket.create_connection((h.host, h.port), timeout=2.0)
+        try:
+            tls = ctx.wrap_socket(raw, server_hostname="localhost")
+        except (ssl.SSLError, OSError) as e:
+            raw.close()
+            tally.notes["tls-handshake-refused:%s" % (case["offer"],)] += 1
+            h.trigger_shutdown()
+            h.wait_done(4.0)
+            return findings, [None]
+        negotiated = tls.selected_alpn_protocol()
+        tls.settimeout(2.0)
+        if negotiated == "h2":
+            fb = FrameBuilder()
+            tls.sendall(client_preface(fb, {}) + _h2_req(fb, 1, 4242))
+            rd = FrameReader()
+            end = time.monotonic() + 2.0
+            evs = []
+            while time.monotonic() < end and not any(e["t"] == "data" and e["end"] for e in evs):
+                try:
+                    d = tls.recv(65536)
+                except (socket.timeout, OSError):
+                    break
+                if not d:
+                    break
+                evs += rd.feed(d)
+            answered = any(e["t"] == "headers" and dict(e["headers"] or []).get(b":status") == b"200" for e in evs)
+        else:
+            tls.sendall(_h1_req(4242))
+            d = recv_until(tls, b"ok", timeout=2.0)
+            answered = d.startswith(b"HTTP/1.1 200")
+        try:
+            tls.close()
+        except OSError:
+            pass
+        h.trigger_shutdown()
+        h.wait_done(4.0)
+    finally:
+        h.close()
+    for e in h.trace.events:
+        tally.events[e[2] + "." + e[3]] += 1
+    starts = [e for e in h.trace.events if e[2] == "app" and e[3] == "start" and e[4]["scope"].get("type") == "http"]
+    tally.clause("tls-alpn")
+    want = "2" if negotiated == "h2" else "1.1"
+    offer = case["offer"] or []
+    if "h2" in offer and negotiated != "h2" and offer[0] == "h2":
+        findings.append({"clause": "tls-alpn", "sig": "C13.tls/h2-not-negotiated/%s" % be, "backend": be,
+                         "detail": "client offered %r, server negotiated %r" % (offer, negotiated)})
+    if not starts or not answered:
+        findings.append({"clause": "tls-alpn", "sig": "C13.tls/not-served/%s" % be, "backend": be,
+                         "detail": "ALPN offer %r negotiated %r: request not served (starts=%d answered=%r)" % (offer, negotiated, len(starts), answered)})
+    else:
+        sc = starts[0][4]["scope"]
+        if sc.get("http_version") != want or sc.get("scheme") != "https":
+            findings.append({"clause": "tls-alpn", "sig": "C13.tls/version/%s" % be, "backend": be,
+                             "detail": "negotiated %r but the scope reports http_version %r scheme %r" % (negotiated, sc.get("http_version"), sc.get("scheme"))})
+    return findings, [None]
+
+
 def run_one(case, tally):
+    if case.get("kind") == "tls":
+        return _tls_case(case, tally)
     findings = []
     obs_all = []
     t = case["truth"]
